@@ -150,6 +150,9 @@ def jobs(tier):
     # broadcasts that stay on the bus longer than the receivers' segment timeout T1 = 750 ms
     J(L=601, kind='pdu2', windows=[1, 1], bam_interval='1/10')
     J(L=4900, kind='pdu2', windows=[1, 1], bystander=False)
+    # more than 255 segments: the second byte of the 24-bit segment number and of the segment counts is used
+    J(L=15420, kind='p2p', windows=[255, 255], bystander=False)
+    J(L=15361, kind='pdu2', windows=[1, 1], bystander=False)
     J(L=121, kind='p2p', shape='twoway', L2=70, kind2='p2p', windows=[1, 2])
     for ad in ([0, 0x20, 0x30], [0x10, 0, 0x30], [253, 1, 0]):
         J(L=121, kind='p2p', addrs=ad)
@@ -179,7 +182,7 @@ def jobs(tier):
 
 def meta(tier):
     return {
-        'bounds': ['payload lengths ' + ('{61,119,120,121,179,180,181}' if tier == 'quick' else '61..300, 1000, 20000') + '; payload, priority, data page, PDU format / group extension, both max_cmdt_packets symbolic',
+        'bounds': ['payload lengths ' + ('{61,119,120,121,179,180,181} and 300, 601, 4900, 15361, 15420 with concrete windows' if tier == 'quick' else '61..300, 1000, 15361, 15420, 20000') + '; payload, priority, data page, PDU format / group extension, both max_cmdt_packets symbolic',
                    'all interleavings of deliveries and job passes (DESIGN 3), latency > 0 only (no re-entrant delivery)',
                    '3 stacks; concurrent shapes A->B || B->A, A->B || A->global; staggered shape: second message to the same destination submitted after every bus frame of the first transfer; overlap shape: A->B long || B->A short, second A->B submitted when the inbound message has arrived; capacity shape: 8 RTS/CTS + 4 BAM from one stack, the 9th and 5th call must return False, emit nothing, everything in flight completes (canonical schedule)'],
         'outside': ['other lengths', 'capacity shape under all interleavings', 're-entrant delivery (excluded by the property)'],
